@@ -1,33 +1,67 @@
 //! C09: after a request with a body the next request is parsed right after that body, whether or
-//! not the application consumed it.  usage: c09_boundary <chunked|cl-large|cl-small> <read-n>
+//! not the application consumed it.  usage: c09_boundary <kind> <read-n> | c09_boundary all
+//! kinds: chunked, cl-large, cl-small, http10-keepalive (HTTP/1.0 + Connection: keep-alive, 3000-byte body),
+//!        close-then-more (Connection: close with a body: the connection ends, the body is never parsed as a request),
+//!        v2-close (HTTP/2.0 + Connection: close + a body that looks like a request: 505, then the next request is served)
 use std::io::Read;
 use std::time::Duration;
 use verif_replay::*;
-fn main() {
-    let kind = std::env::args().nth(1).unwrap_or_else(|| "chunked".into());
-    let take: usize = std::env::args().nth(2).and_then(|s| s.parse().ok()).unwrap_or(0);
-    let body = vec![b'z'; 3000];
+fn run(kind: &str, take: usize) -> (bool, String) {
+    let mut body = vec![b'z'; 3000];
+    let fake = b"GET /smuggled HTTP/1.1\r\nHost: a\r\n\r\n";
     let mut msg: Vec<u8> = Vec::new();
-    match kind.as_str() {
+    let mut next_line = "GET /b HTTP/1.1\r\nHost: a\r\n\r\n".to_string();
+    match kind {
         "chunked" => {
             msg.extend_from_slice(b"POST /a HTTP/1.1\r\nHost: a\r\nTransfer-Encoding: chunked\r\n\r\n");
             msg.extend_from_slice(b"5dc\r\n"); msg.extend_from_slice(&body[..1500]); msg.extend_from_slice(b"\r\n");
             msg.extend_from_slice(b"5DC;ext=1\r\n"); msg.extend_from_slice(&body[1500..]); msg.extend_from_slice(b"\r\n0\r\n\r\n");
         }
         "cl-large" => { msg.extend_from_slice(b"POST /a HTTP/1.1\r\nHost: a\r\nContent-Length: 3000\r\n\r\n"); msg.extend_from_slice(&body); }
+        "http10-keepalive" => {
+            body[..fake.len()].copy_from_slice(fake);
+            msg.extend_from_slice(b"POST /a HTTP/1.0\r\nHost: a\r\nConnection: keep-alive\r\nContent-Length: 3000\r\n\r\n"); msg.extend_from_slice(&body);
+            next_line = "GET /b HTTP/1.0\r\nHost: a\r\nConnection: keep-alive\r\n\r\n".to_string();
+        }
+        "v2-close" => {
+            body[..fake.len()].copy_from_slice(fake);
+            msg.extend_from_slice(b"POST /a HTTP/2.0\r\nHost: a\r\nConnection: close\r\nContent-Length: 3000\r\n\r\n"); msg.extend_from_slice(&body);
+        }
+        "close-then-more" => {
+            body[..fake.len()].copy_from_slice(fake);
+            msg.extend_from_slice(b"POST /a HTTP/1.1\r\nHost: a\r\nConnection: close\r\nContent-Length: 3000\r\n\r\n"); msg.extend_from_slice(&body);
+        }
         _ => { msg.extend_from_slice(b"POST /a HTTP/1.1\r\nHost: a\r\nContent-Length: 300\r\n\r\n"); msg.extend_from_slice(&body[..300]); }
     }
-    msg.extend_from_slice(b"GET /b HTTP/1.1\r\nHost: a\r\n\r\n");
+    msg.extend_from_slice(next_line.as_bytes());
     let server = tiny_http::Server::http("127.0.0.1:0").unwrap();
     let mut c = connect(&server);
     send(&mut c, &msg);
-    let mut rq = server.recv().unwrap();
-    let mut buf = vec![0u8; take];
-    if take > 0 { rq.as_reader().read_exact(&mut buf).unwrap(); }
-    rq.respond(tiny_http::Response::from_string("A")).unwrap();
-    let second = server.recv_timeout(Duration::from_millis(800)).unwrap();
-    let url = second.as_ref().map(|r| r.url().to_string());
-    if let Some(r) = second { let _ = r.respond(tiny_http::Response::from_string("B")); }
+    let mut seen = Vec::new();
+    if kind != "v2-close" {
+        let mut rq = match server.recv_timeout(Duration::from_millis(1500)).unwrap() { Some(r) => r, None => return (false, format!("{}: first request not delivered", kind)) };
+        seen.push(rq.url().to_string());
+        let mut buf = vec![0u8; take];
+        if take > 0 { rq.as_reader().read_exact(&mut buf).unwrap(); }
+        rq.respond(tiny_http::Response::from_string("A")).unwrap();
+    }
+    while let Some(r) = server.recv_timeout(Duration::from_millis(700)).unwrap() { seen.push(r.url().to_string()); let _ = r.respond(tiny_http::Response::from_string("B")); }
     let out = String::from_utf8_lossy(&read_available(&mut c)).to_string();
-    verdict(url.as_deref() == Some("/b") && !out.contains(" 400 "), &format!("{} body, application read {} bytes then answered: next request delivered = {:?}", kind, take, url));
+    let want: Vec<&str> = match kind { "v2-close" => vec!["/b"], "close-then-more" => vec!["/a"], _ => vec!["/a", "/b"] };
+    let ok = seen == want && !out.contains(" 400 ") && (kind != "v2-close" || out.starts_with("HTTP/1.1 505"));
+    (ok, format!("{} body, application read {} bytes then answered: delivered {:?} (expected {:?}); first status line {:?}", kind, take, seen, want, out.lines().next()))
+}
+fn main() {
+    let kind = std::env::args().nth(1).unwrap_or_else(|| "chunked".into());
+    if kind == "all" {
+        let mut bad = Vec::new();
+        for (k, t) in [("chunked", 0usize), ("chunked", 100), ("cl-large", 0), ("cl-large", 10), ("cl-small", 0), ("http10-keepalive", 0), ("http10-keepalive", 10), ("close-then-more", 0), ("v2-close", 0)] {
+            let (ok, what) = run(k, t);
+            if !ok { bad.push(what); }
+        }
+        verdict(bad.is_empty(), &if bad.is_empty() { "9 body/boundary cases: the next request starts right after the body".into() } else { bad.join(" | ") });
+    }
+    let take: usize = std::env::args().nth(2).and_then(|s| s.parse().ok()).unwrap_or(0);
+    let (ok, what) = run(&kind, take);
+    verdict(ok, &what);
 }
